@@ -5,6 +5,7 @@ import (
 
 	"github.com/miekg/dns"
 	"github.com/semihalev/sdns/internal/dnsutil"
+	"github.com/semihalev/sdns/middleware"
 )
 
 // Network and authority errors. DNSSEC-specific sentinels live in
@@ -21,6 +22,14 @@ var (
 	errNoReachableAuth = &dnsutil.EDEError{
 		Code:    dns.ExtendedErrorCodeNoReachableAuthority,
 		Message: "No reachable authoritative servers",
+	}
+	// errNameserverLoop is errNoReachableAuth for a delegation whose NS hosts
+	// were skipped by this request tree's loop guard. No server of the zone
+	// was asked, so it must not be published as an RFC 9520 failure.
+	errNameserverLoop = &dnsutil.EDEError{
+		Code:    dns.ExtendedErrorCodeNoReachableAuthority,
+		Message: "No reachable authoritative servers",
+		Err:     middleware.ErrNameserverLookupLoop,
 	}
 	errConnectionFailed = &dnsutil.EDEError{
 		Code:    dns.ExtendedErrorCodeNoReachableAuthority,
